@@ -215,8 +215,8 @@ def case_hist(c):
                             'detail': detail + ' | history=%s' % (hist,),
                             'params': dict(c, only=list(hist))})
 
-    kw = dict(target_mean=c['tm'], target_fwhm=c['fwhm'], num_bits=c['bits'], stats_calc_period=p,
-              stats_calc_num_samples=c['N'])
+    kw = dict(target_mean=c['tm'], target_fwhm=c['fwhm'], num_bits=_typed(c, c['bits']), stats_calc_period=_typed(c, p),
+              stats_calc_num_samples=_typed(c, c['N']))
     lo, hi = rq.q_range(c['bits'])
     arrays = {t: P[t] for t in tags}
     if kind == 'real':
@@ -453,6 +453,15 @@ def _func_tags():
     return tags
 
 
+def _typed(c, v):
+    """Integer settings as the caller's numeric type: a Python int, or (sub-box) a numpy fixed-width integer when it fits."""
+    nt = c.get('itype')
+    if not nt or isinstance(v, float) or v is None:
+        return v
+    info = np.iinfo(nt)
+    return np.dtype(nt).type(v) if info.min <= int(v) <= info.max else int(v)
+
+
 def case_func(c):
     """quantize_real (estimating or with supplied statistics) / quantize_complex on one array, all targets."""
     import setigen.voltage.quantization as Q
@@ -535,7 +544,7 @@ def case_func(c):
                     sub = [tm, fwhm, mode]
                     if only is not None and sub != only:
                         continue
-                    kw = dict(target_mean=tm, target_std=tstd, num_bits=bits, stats_calc_num_samples=N)
+                    kw = dict(target_mean=tm, target_std=tstd, num_bits=_typed(c, bits), stats_calc_num_samples=_typed(c, N))
                     if mode == 'est':
                         dm, ds, me, se, s_ = st.mean, st.std, True, True, st
                     else:
@@ -565,8 +574,8 @@ def case_func(c):
                 xr, xi = arr(seed, ta), arr(seed, tb)
                 z = xr + 1j * xi
                 const_in = bool(np.all(z == z[0]))      # then both estimated deviations are zero
-                q = call(site, lambda: Q.quantize_complex(z, target_mean=tm, target_std=tstd, num_bits=bits,
-                                                          stats_calc_num_samples=N), const_in, sub)
+                q = call(site, lambda: Q.quantize_complex(z, target_mean=tm, target_std=tstd, num_bits=_typed(c, bits),
+                                                          stats_calc_num_samples=_typed(c, N)), const_in, sub)
                 res['n'] += 1
                 if q is None:
                     continue
@@ -627,12 +636,19 @@ def run(ctx):
                 fcases.append(dict(form='quantize_real', arr=t, bits=b, N=N, seed=seed))
             for pr in CPAIRS:
                 fcases.append(dict(form='quantize_complex', arr=list(pr), bits=b, N=N, seed=seed))
+    # integer settings (bit width, prefix length, refresh period) handed over as numpy fixed-width integers: sub-box
+    fcases += [dict(fc, itype=it) for fc in fcases if fc['N'] == NSAMP[0] and (fc['arr'] == _func_tags()[0] or fc['arr'] == list(CPAIRS[0]))
+               for it in ('uint8', 'int8', 'int16', 'int64')]
     ctx.pmap(case_func, fcases, label='func')
     bounds.append(dict(box='F', cases=len(fcases), arrays=len(_func_tags()), complex_pairs=len(CPAIRS),
                        targets=len(TMEAN) * len(FWHM), supplied_modes=SUPPLIED))
     for b in boxes:
         name = b.pop('name')
         cases = _hist_cases(seed, **b)
+        if name == 'A':
+            # the class interface with its integer settings as numpy fixed-width integers (sub-box: first target pair)
+            cases += [dict(cc, itype=it) for cc in cases if (cc['tm'], cc['fwhm']) == (TMEAN[0], FWHM[0]) and cc['custom'] == 'none'
+                      for it in ('uint8', 'int8', 'int16', 'int64')]
         bounds.append(dict(box=name, configurations=len(cases), histories_per_configuration=4 ** b['depth'], **b))
         ctx.pmap(case_hist, cases, chunk={3: 16, 4: 4, 5: 2}.get(b['depth'], 1), label='hist-' + name)
     return ctx.finish(
